@@ -173,7 +173,8 @@ func Intersection(limit int, sets ...*Set) (*Set, bool) {
 	// Use divide & conquer to get the set intersections
 	switch len(sets) {
 	case 1:
-		return sets[0], false
+		// Return a copy: the result must not share its members with the operand.
+		return NewSet(sets[0].GetAll()), false
 	case 2:
 		intersection := NewSet([]string{})
 		var limitReached bool
